@@ -68,3 +68,51 @@ func (c *DNSCache) VerifDelete(name string) {
 	delete(c.entries, name)
 	c.mutex.Unlock()
 }
+
+// VerifTripper wraps a destinationTripper for the transport-cache scenarios (C19): getTransport, one
+// reaper pass, and moving a cached transport's lastUsed into the past (the reaper only acts on a
+// transport that has been idle for longer than destinationTripperLifetime).
+type VerifTripper struct{ t *destinationTripper }
+
+// VerifNewTripper builds a destinationTripper over this DNS cache (nil: none), without keep-alives, as
+// NewFederationClient does. (A method of an exported type rather than a function: the harness looks it
+// up at run time, so that it also builds against a tree that does not have this hook yet.)
+func (c *DNSCache) VerifNewTripper() *VerifTripper {
+	return &VerifTripper{t: newDestinationTripper(true, c, false, false, nil, nil)}
+}
+
+// VerifGetTransport exposes getTransport; the result is the cached round tripper (compare by identity).
+func (v *VerifTripper) VerifGetTransport(tlsServerName string) interface{} {
+	return v.t.getTransport(tlsServerName, v.t.dialer)
+}
+
+// VerifReap runs one pass of the reaper (what the timer does once a minute).
+func (v *VerifTripper) VerifReap() { v.t.reaper() }
+
+// VerifIdleFor moves lastUsed of the cached transport for tlsServerName back by d, under the
+// transports mutex; false if there is no such transport.
+func (v *VerifTripper) VerifIdleFor(tlsServerName string, d time.Duration) bool {
+	v.t.transportsMutex.Lock()
+	defer v.t.transportsMutex.Unlock()
+	tr, ok := v.t.transports[tlsServerName]
+	if !ok {
+		return false
+	}
+	tr.lastUsed.Store(tr.lastUsed.Load().(time.Time).Add(-d))
+	return true
+}
+
+// VerifTransportNames returns the TLS server names that have a cached transport, read under the
+// transports mutex.
+func (v *VerifTripper) VerifTransportNames() []string {
+	v.t.transportsMutex.Lock()
+	defer v.t.transportsMutex.Unlock()
+	out := make([]string, 0, len(v.t.transports))
+	for name := range v.t.transports {
+		out = append(out, name)
+	}
+	return out
+}
+
+// VerifTripperLifetime is destinationTripperLifetime.
+const VerifTripperLifetime = destinationTripperLifetime
